@@ -29,11 +29,12 @@ typedef struct {
 static const struct {
     int32 nt;
     int   sz;
-} ATY[] = {{DFNT_CHAR8, 1}, {DFNT_INT16, 2}, {DFNT_FLOAT64, 8}, {DFNT_INT8, 1}, {DFNT_INT32, 4}, {DFNT_FLOAT32, 4}};
+} ATY[] = {{DFNT_CHAR8, 1}, {DFNT_INT16, 2}, {DFNT_FLOAT64, 8}, {DFNT_INT8, 1}, {DFNT_INT32, 4}, {DFNT_FLOAT32, 4}, {DFNT_UINT16, 2}, {DFNT_UINT8, 1}};
+#define NATY 8
 static int
 tsize(int32 nt)
 {
-    for (int i = 0; i < 6; i++)
+    for (int i = 0; i < NATY; i++)
         if (ATY[i].nt == nt)
             return ATY[i].sz;
     return DFKNTsize(nt);
@@ -517,8 +518,11 @@ sd_enum(mc_op *out, int max)
             /* a new name, and a replacement of the same name with another type/count */
             ADD(O_SETATTR, o, 0, 1, 2);             /* "a"  int16 x2 */
             ADD(O_SETATTR, o, 1, 0, 5);             /* "ab" char8 x5 (prefix-related name) */
-            if (afind(l, "a"))
+            if (afind(l, "a")) {
                 ADD(O_SETATTR, o, 0, 2, 1);         /* "a" -> float64 x1 */
+                if (o == SO_SDS0 || o == SO_FILE || thorough)
+                    ADD(O_SETATTR, o, 0, 6, 2);     /* "a" -> uint16 x2 (an unsigned type replacing an existing attribute) */
+            }
             if (thorough || o == SO_SDS0) {
                 ADD(O_SETATTR, o, 2, 0, 3);         /* 300-character name */
                 ADD(O_SETATTR, o, 0, 1, 1000);      /* large count */
